@@ -29,6 +29,7 @@ pub struct RefStats {
     pub done_parallel: usize,
     pub mid_block_errors: usize,
     pub else_taken: usize,
+    pub elem_assigned: usize,
     pub microsteps: usize,
 }
 
@@ -76,6 +77,7 @@ pub fn expected_trace_mode(f: &Flat, path: &[String], prequeue: bool) -> Expecte
             done_parallel: m.stat_done_parallel,
             mid_block_errors: m.stat_mid_block_errors,
             else_taken: m.stat_else_taken,
+            elem_assigned: m.stat_elem_assigned,
             microsteps: m.microsteps,
         },
         final_config,
@@ -393,6 +395,7 @@ impl<'a> Workload<'a> {
         self.rep.count("done_parallel", st.done_parallel as u64);
         self.rep.count("mid_block_errors", st.mid_block_errors as u64);
         self.rep.count("else_branches_taken", st.else_taken as u64);
+        self.rep.count("array_elements_assigned", st.elem_assigned as u64);
         if self.rep.samples.len() < self.rep.max_samples && st.microsteps >= 3 {
             self.rep.sample(json!({"datamodel": doc.dm.name(), "events": path, "xml": xml, "trace_head": out.observed.iter().take(25).collect::<Vec<_>>()}));
         }
